@@ -660,7 +660,7 @@ func TestC17(t *testing.T) {
 	}
 	rec.R.Exhaustive = true
 	rec.Flush()
-	total := 400 / cfg.NShards
+	total := 6000 / cfg.NShards
 	if cfg.Thorough() {
 		total = 60000 / cfg.NShards
 	}
